@@ -178,6 +178,9 @@ func Observe(label string, x float64, idx ...int) { Observed[nameOf(label, idx)]
 
 func Symbolic() bool { return false }
 
+// Concretize forces the executor to fork on every feasible value of x.
+func Concretize(x int) int { return x }
+
 // And / Or are non-short-circuit so that harness predicates do not fork paths.
 func And(a, b bool) bool { return a && b }
 func Or(a, b bool) bool  { return a || b }
